@@ -204,4 +204,45 @@ example :
     (observe P exU w 0 (.getLoader (.cls 9))).map Outcome.isOk = some false := by
   decide +kernel
 
+/-! ### witnesses for the hypotheses (`SysInv`, `CallInv`, the premises of `request_independent`) -/
+
+/-- **`SysInv` has non-trivial instances**: not only never-used retorts (`cache_inv_initial`) satisfy it - after
+    a history with successful and failed requests, a recursive model, a clone and calls on the clone, started
+    from a polluted normalisation cache, the invariant holds and every cache it speaks about is non-empty
+    (two retorts; each has call-cache entries and cached loaders). -/
+example :
+    let P : Params := { mode := Mode.fixed, cap := 128, fuel := 12 }
+    let w := runHist P exU
+      [.call 0 (.load L01 (.int 0)), .call 0 (.getLoader (.cls 9)), .call 0 (.getLoader (.cls 7)),
+       .call 0 (.getDumper (.seq 0 (.cls 5))), .replace 0 (some false), .call 1 (.load (.union [6, 5]) (.dict [("x", .int 1)])),
+       .call 1 (.getLoader LFT)]
+      { retorts := [Retort.fresh exCfg], norm := [.union [4, 7]] }
+    SysInv P exU w ∧ w.retorts.length = 2 ∧
+      (w.retorts.all fun r => decide (2 ≤ r.call.length) && decide (2 ≤ r.loaderCache.length)) = true ∧
+      (w.retorts.any fun r => decide (1 ≤ r.dumperCache.length)) = true := by
+  intro P w
+  refine ⟨?_, by decide +kernel, by decide +kernel, by decide +kernel⟩
+  exact runHist_inv P rfl exU _ _ (cache_inv_initial P exU [exCfg] [.union [4, 7]])
+
+/-- **the premises of `request_independent` hold together** for two different spellings of one `Literal`, a
+    pristine state and a state whose call cache was filled by an earlier request (three entries) and whose
+    normalisation cache is polluted -/
+example :
+    let s : RS := { loc := ⟨[], 0⟩, call := [], norm := [] }
+    let s' : RS := (provide Mode.fixed exU 128 exCfg .load 8 [Loc.th (Hint.cls 5)] (.cls 5)
+      { loc := ⟨[], 0⟩, call := [], norm := [LFT] }).2
+    Hint.pyEq (.lit [.int 0, .int 1]) (.lit [.int 1, .int 0, .int 1]) = true ∧ s.loc = s'.loc ∧
+      CallInv s.call ∧ CallInv s'.call ∧ s'.call.length = 3 := by
+  intro s s'
+  refine ⟨by decide +kernel, by decide +kernel, callInv_nil, ?_, by decide +kernel⟩
+  exact (request_independent exU 128 exCfg .load 8 [Loc.th (Hint.cls 5)] (.cls 5) (.cls 5)
+    { loc := ⟨[], 0⟩, call := [], norm := [LFT] } { loc := ⟨[], 0⟩, call := [], norm := [LFT] }
+    (by decide +kernel) rfl callInv_nil callInv_nil).2.1
+
+/-- `key_sound` is not vacuous either: distinct key tuples that the call cache identifies (two spellings of
+    `Optional[int]` as the `norm.source` argument) -/
+example : Key.pyEq Mode.fixed (.optL (.union [0, 4]) (.scalarL .int true)) (.optL (.union [4, 0, 4]) (.scalarL .int true)) = true ∧
+    Key.optL (.union [0, 4]) (.scalarL .int true) ≠ .optL (.union [4, 0, 4]) (.scalarL .int true) := by
+  decide +kernel
+
 end Adaptix.Cache.C11
